@@ -11,6 +11,7 @@ import RotoV.Lemmas.Scope
 import RotoV.Lemmas.ScopePath
 import RotoV.Lemmas.ScopeFrame
 import RotoV.Lemmas.ScopeDiscovery
+import RotoV.Lemmas.ScopeBuild
 
 namespace RotoV.C13
 open RotoV.Scope
@@ -39,6 +40,27 @@ theorem lookup_nonrecursive (g : Graph) (s : Nat) (x : Name) :
   cases g.decl ⟨s, x⟩ <;> simp
 
 example : ∃ g : Graph, WF g ∧ 0 < g.scopes.length := ⟨Graph.new, new_wf, by decide⟩
+
+/-- **The hypotheses of T1–T3 are not assumptions about real graphs**: starting
+    from `ScopeGraph::new()`, after the runtime's modules (`rt`) and the whole
+    of `check_module_tree` on any module list, the graph is well-formed, module
+    scopes are owned by their declarations, every import points at a
+    declaration — and nothing that existed was lost or renamed on the way. -/
+theorem built_graph_ok (rt ms : List Module) (g0 : Graph) (m0 : List Nat) (out : Outcome)
+    (h0 : declareModules rt [] Graph.new = .ok (g0, m0))
+    (h : checkModuleTree g0 ms = .ok out) :
+    WF out.g ∧ ModulesOk out.g ∧ ImportsOk out.g ∧ Ext g0 out.g := by
+  obtain ⟨s0, _, _⟩ := step_declareModules rt [] Graph.new g0 m0 inv_new (by intro x hx; cases hx) h0
+  have s1 := step_checkModuleTree s0.1 h
+  exact ⟨s1.1.wf, s1.1.mok, s1.1.iok, s1.2.2⟩
+
+/-- On such graphs name lookup never panics and never runs out of fuel: it
+    returns a declaration or "not found". -/
+theorem lookup_total (g : Graph) (wf : WF g) (iok : ImportsOk g) (s : Nat)
+    (hs : s < g.scopes.length) (x : Name) (p : Site) : g.resolve s x true ≠ .panic p := by
+  obtain ⟨chain, hc, heq⟩ := lookup_spec g wf s hs x
+  rw [heq]
+  exact firstHit_no_panic iok x chain (ancestors_valid hc) p
 
 /-! ## T2 — path_spec -/
 
